@@ -350,12 +350,9 @@ func (p *parser) scan() (tkn token.Token, literal string, idx file.Idx) { //noli
 					tkn = token.STRICT_NOT_EQUAL
 				}
 			case '&':
-				if p.chr == '^' {
-					p.read()
-					tkn = p.switch2(token.AND_NOT, token.AND_NOT_ASSIGN)
-				} else {
-					tkn = p.switch3(token.AND, token.AND_ASSIGN, '&', token.LOGICAL_AND)
-				}
+				// "&^" and "&^=" are Go operators, not ECMAScript punctuators (ES5 7.7):
+				// "a &^= b" is "a & ^= b", a syntax error.
+				tkn = p.switch3(token.AND, token.AND_ASSIGN, '&', token.LOGICAL_AND)
 			case '|':
 				tkn = p.switch3(token.OR, token.OR_ASSIGN, '|', token.LOGICAL_OR)
 			case '~':
